@@ -78,9 +78,10 @@ def case(draw):
     for i in range(n):
         for j in range(n):
             if pos[i] < pos[j] and draw(st.integers(0, 3)) == 0:
-                if draw(st.booleans()):
+                how = draw(st.sampled_from(["before", "after", "both"]))
+                if how in ("before", "both"):
                     plugins[i]["before"].append(names[j])
-                else:
+                if how in ("after", "both"):
                     plugins[j]["after"].append(names[i])
     for i, p in enumerate(plugins):
         if draw(st.integers(0, 3)) == 0:
